@@ -98,7 +98,7 @@ M = [
     ("C13", L, "    A[1, 1] = (epsilon[3]+1)/A0inv[1, 1]", "    A[1, 1] = (epsilon[4]+1)/A0inv[1, 1]", None, "violation", "C13:e2b:laue.epsilon_to_b_old:eq22"),
     ("C13", L, "    B = np.linalg.inv(ubi_matrix.dot(U))", "    B = np.linalg.inv(U.dot(ubi_matrix))", None, "violation", "C13:tau:laue.ubi_to_u_and_eps"),
     ("C13", T, "    T = n.dot(B0,n.linalg.inv(B))", "    T = n.dot(n.linalg.inv(B),B0)", None, "violation", "C13:b2e:tools.b_to_epsilon"),
-    ("C14", L, "                            if  sintlH > sintlmin and sintlH <= sintlmax:", "                            if  sintlH > sintlmin and sintlH < sintlmax:", 1, "violation", "C14:identical:genhkl_base"),
+    ("C14", L, "                            if  sintlH > sintlmin and sintlH <= sintlmax:", "                            if  sintlH > sintlmin and sintlH < sintlmax:", 1, "violation", "C14:semantic:genhkl_base"),
     ("C14", L, "    return np.linalg.inv(np.dot(U,b_mat))", "    return np.linalg.inv(np.dot(U,b_mat))*(2*np.pi)", None, "violation", "C14:semantic:u_to_ubi"),
     ("C14", T, "    astar = 2*n.pi*b*c*salp/V ", "    astar = n.pi*b*c*salp/V ", None, "violation", "C14:semantic:form_b_mat"),
     ("C14", L, "    r1 = (U[1, 2]-U[2, 1])*a", "    r1 = a*(U[1, 2]-U[2, 1])", None, "silent", ""),
